@@ -27,7 +27,8 @@ type Scenario struct {
 	FreshAbsent, FreshOtherUID, FreshDeleting bool
 	// set missing from the cache
 	Uncached bool
-	Dom      []int // index of the scenario in its domain (for replay)
+	Dom      []int   // index of the scenario in its domain (for replay)
+	Faults   []Fault // injected into the reconcile that follows Load
 	// Raw, if set, rewrites the built set object (used to produce shapes only the CRD schema admits)
 	Raw func(*apps.StatefulSet) *apps.StatefulSet
 }
@@ -77,6 +78,7 @@ func (w *World) Load(sc *Scenario) {
 		e.api.Put(RSet, f)
 	}
 	e.api.ResetLog()
+	e.api.faults = sc.Faults
 }
 
 // ---- call post-processing ----
@@ -183,7 +185,7 @@ func (w *World) PlanView(set *apps.StatefulSet, pre map[string]*kubeapps.Control
 		if c.Verb == "list" {
 			continue
 		}
-		d := &Call{old: c.old, Idx: c.Idx, Verb: c.Verb, Res: c.Res, Name: c.Name, Result: c.Result, Ints: []int{}, Strs: []string{}}
+		d := &Call{old: c.old, PlanIdx: c.PlanIdx, Idx: c.Idx, Verb: c.Verb, Res: c.Res, Name: c.Name, Result: c.Result, Ints: []int{}, Strs: []string{}}
 		switch {
 		case c.Res == RPods && c.Verb == "create":
 			if p, ok := c.obj.(*v1.Pod); ok && set != nil {
@@ -290,8 +292,10 @@ func (w *World) PlanView(set *apps.StatefulSet, pre map[string]*kubeapps.Control
 		i = j
 	}
 	out := make([][]interface{}, 0, len(cs))
-	for _, c := range cs {
+	w.canon = map[int]int{}
+	for k, c := range cs {
 		out = append(out, []interface{}{c.Verb, c.Res, c.Name, c.Det, c.Ints, c.Result, c.Strs})
+		w.canon[c.PlanIdx] = k + 1
 	}
 	return out
 }
@@ -326,7 +330,18 @@ func (w *World) Reconcile(name string) map[string]interface{} {
 	w.e.api.ResetLogKeepFaults()
 	res, det := w.e.Sync(name)
 	sn["cacheIntact"] = cs.intact()
-	rec := map[string]interface{}{"sn": sn, "calls": w.PlanView(cached, pre), "res": res}
+	calls := w.PlanView(cached, pre)
+	// fault positions are reported in the canonical call order (see PlanView)
+	fl := [][]interface{}{}
+	for _, f := range w.e.api.faults {
+		k := f.K
+		if c, ok := w.canon[k]; ok && k > 0 {
+			k = c
+		}
+		fl = append(fl, []interface{}{k, f.Kind, f.Applied, f.Die, f.List})
+	}
+	sn["faults"] = fl
+	rec := map[string]interface{}{"sn": sn, "calls": calls, "res": res}
 	if det != "" {
 		rec["detail"] = det
 	}
